@@ -884,3 +884,167 @@ def tty_extension(rep, pid, tpl, seed, thorough, prefixes, only_failures=False):
     rep.sample(evs[len(evs) // 2])
     validate_events(rep, pid, "tty", evs, prefixes)
     rep.extra["tty_scenarios"] = len(evs)
+
+
+# --------------------------------------------------------------------------
+# process level: the decryptor's reads and writes as seen by strace, validated by Trace_Stream (C04, C11)
+# --------------------------------------------------------------------------
+
+def strace_decrypt(w, name, data, expect_plain, klass, auth_n, mode="key"):
+    """Run `kestrel decrypt` under strace and turn its read/write system calls on the input and output
+    files into the event format of Trace_Stream (the same D1 / D2 / D5 / D7 predicates, now at the
+    process boundary).  auth_n: number of leading records that are authentic (two-chunk files)."""
+    import shutil as _sh
+    if not _sh.which("strace"):
+        return None
+    hdr = 132 if mode == "key" else 36
+    with cli.Sandbox(w.pid, "strace") as sb:
+        sb.write("in.ktl", data)
+        sb.write("kr.txt", w.keyring())
+        log_path = sb.path("strace.log")
+        if mode == "key":
+            cmd = ["decrypt", sb.path("in.ktl"), "-t", "bob", "-o", sb.path("out.bin"), "-k", sb.path("kr.txt"), "--env-pass"]
+            env = {"KESTREL_PASSWORD": "bob-pw"}
+        else:
+            cmd = ["password", "decrypt", sb.path("in.ktl"), "-o", sb.path("out.bin"), "--env-pass"]
+            env = {"KESTREL_PASSWORD": "file-pw"}
+        e = {"PATH": "/usr/bin:/bin", "HOME": "/nonexistent"}
+        e.update(env)
+        p = subprocess.run(["strace", "-f", "-e", "trace=openat,read,write,close", "-o", log_path, cli.KESTREL] + cmd,
+                           env=e, stdout=subprocess.PIPE, stderr=subprocess.PIPE, timeout=120)
+        got = sb.read("out.bin")
+        in_fd = out_fd = None
+        cons = acc = 0
+        ends = [hdr + 32 + 65536, hdr + 32 + 65536 + 32 + 1000][:auth_n]
+        plens = [65536, 1000][:auth_n]
+        lag = 2 * (65536 + 32)
+        evs = []
+        for line in open(log_path, errors="replace"):
+            m = re.match(r"\d+\s+openat\(AT_FDCWD, \"([^\"]*)\", ([A-Z_|]+)(?:, \d+)?\)\s+= (\d+)", line)
+            if m:
+                if m.group(1).endswith("in.ktl"):
+                    in_fd = m.group(3)
+                elif m.group(1).endswith("out.bin"):
+                    out_fd = m.group(3)
+                continue
+            m = re.match(r"\d+\s+(read|write)\((\d+), .*, (\d+)\)\s+= (-?\d+)", line)
+            if not m:
+                continue
+            kind, fd, req, ret = m.group(1), m.group(2), int(m.group(3)), int(m.group(4))
+            if kind == "read" and fd == in_fd:
+                cons += max(ret, 0)
+            elif kind == "write" and fd == out_fd:
+                pass
+            else:
+                continue
+            authc = sum(pl for en, pl in zip(ends, plens) if en <= cons)
+            due = sum(pl for en, pl in zip(ends, plens) if en + lag < cons)
+            if kind == "read":
+                evs.append({"ev": "read", "req": req, "ret": ret if ret >= 0 else -1, "heap": 0, "cons": cons, "acc": acc, "authc": authc, "due": due})
+            else:
+                off = acc
+                acc += max(ret, 0)
+                ok = got is not None and got[off:off + req] == expect_plain[off:off + req] and len(got) >= off + max(ret, 0)
+                evs.append({"ev": "write", "req": req, "ret": ret if ret >= 0 else -1, "off": off, "ok": bool(ok), "heap": 0, "cons": cons, "acc": acc,
+                            "authc": authc, "due": due})
+        res = "ok" if p.returncode == 0 else ("err_auth" if p.returncode == 1 else "panic")
+        boundary = acc in [0] + [sum(plens[:i + 1]) for i in range(len(plens))]
+        begin = {"ev": "begin", "op": "dec", "api": mode, "id": name, "cs": 65536, "H": hdr, "flen": len(data), "plen": len(expect_plain),
+                 "class": klass, "auth": [], "twin": {"used": False, "prefix_ok": True, "res": "n/a"},
+                 "faults": {"read": "none", "write": "none", "flush": "none"}, "heapk": 1 << 30}
+        end = {"ev": "end", "res": res, "cons": cons, "acc": acc, "eofs": 1, "late": 0, "sender_ok": True, "boundary": boundary}
+        return [begin] + evs + [end]
+
+
+def process_level_stream(rep, pid, tpl, seed):
+    """C04 at the process boundary (thorough tier): strace of kestrel decrypt on valid and damaged two-chunk files."""
+    w = World(pid, tpl, seed)
+    runs = []
+    for mode, data, hdr in (("key", w.ckey, 132), ("pass", w.cpass, 36)):
+        runs.append(strace_decrypt(w, "ps-valid-" + mode, data, w.P2, "must_accept", 2, mode))
+        runs.append(strace_decrypt(w, "ps-later-" + mode, corrupt(data, "corrupt_later_chunk", hdr), w.P2, "must_reject", 1, mode))
+        runs.append(strace_decrypt(w, "ps-first-" + mode, corrupt(data, "corrupt_first_chunk", hdr), w.P2, "must_reject", 0, mode))
+        runs.append(strace_decrypt(w, "ps-append-" + mode, corrupt(data, "appended_data", hdr), w.P2, "must_reject", 2, mode))
+        runs.append(strace_decrypt(w, "ps-trunc-" + mode, corrupt(data, "truncated_later_chunk", hdr), w.P2, "must_reject", 1, mode))
+    if any(r is None for r in runs):
+        rep.notes.append("strace not available: process-level observation skipped")
+        return
+    evs = [e for r in runs for e in r]
+    wd = workdir(pid, "run-strace", clean=True)
+    tp = os.path.join(wd, "trace.ndjson")
+    write_jsonl(tp, evs)
+    v = validate_trace(pid, "strace", "Trace_Stream", tp, len(evs))
+    rep.add_trace_run("strace", v, len(runs), len(evs))
+    for (ln, pred) in v["viols"]:
+        if pred.startswith("TOOL_"):
+            raise ToolError("trace tooling mismatch " + pred)
+        rep.violation("%s (process level, strace) event=%d" % (pred, ln), {"engine": "strace", "events": evs[max(0, ln - 5):ln + 2]})
+    rep.extra["process_level_syscalls_checked"] = len(evs)
+    for r in runs:
+        rep.case("strace:" + r[0]["id"], True)
+
+
+def process_level_rss(rep, pid, tpl, seed, size_mib):
+    """C11 at the process boundary (thorough tier): peak RSS of kestrel on a large file vs a small one."""
+    import shutil as _sh
+    import hashlib
+    if not os.path.exists("/usr/bin/time"):
+        rep.notes.append("/usr/bin/time not available: process-level memory observation skipped")
+        return
+    w = World(pid, tpl, seed)
+    evs = []
+    with cli.Sandbox(pid, "rss") as sb:
+        sb.write("kr.txt", w.keyring())
+        def run(args, env):
+            e = {"PATH": "/usr/bin:/bin", "HOME": "/nonexistent"}
+            e.update(env)
+            p = subprocess.run(["/usr/bin/time", "-v", cli.KESTREL] + args, env=e, stdout=subprocess.PIPE, stderr=subprocess.PIPE, timeout=3600)
+            m = re.search(rb"Maximum resident set size \(kbytes\): (\d+)", p.stderr)
+            rc = re.search(rb"Exit status: (\d+)", p.stderr)
+            return (int(rc.group(1)) if rc else p.returncode), (int(m.group(1)) if m else -1)
+        def mk(name, mib):
+            h = hashlib.sha256()
+            with open(sb.path(name), "wb") as f:
+                blk = bytes((i * 31 + 7) % 256 for i in range(1 << 20))
+                for i in range(mib):
+                    b = bytes([i % 256]) + blk[1:]
+                    f.write(b)
+                    h.update(b)
+            return h.hexdigest()
+        def sha(path):
+            h = hashlib.sha256()
+            with open(path, "rb") as f:
+                for b in iter(lambda: f.read(1 << 20), b""):
+                    h.update(b)
+            return h.hexdigest()
+        for mode in ("key", "pass"):
+            base = {}
+            for label, mib in (("small", 1), ("large", size_mib)):
+                digest = mk("in.bin", mib)
+                if mode == "key":
+                    enc = ["encrypt", sb.path("in.bin"), "-t", "bob", "-f", "alice", "-o", sb.path("c.ktl"), "-k", sb.path("kr.txt"), "--env-pass"]
+                    dec = ["decrypt", sb.path("c.ktl"), "-t", "bob", "-o", sb.path("out.bin"), "-k", sb.path("kr.txt"), "--env-pass"]
+                    e1, e2 = {"KESTREL_PASSWORD": "alice-pw"}, {"KESTREL_PASSWORD": "bob-pw"}
+                else:
+                    enc = ["password", "encrypt", sb.path("in.bin"), "-o", sb.path("c.ktl"), "--env-pass"]
+                    dec = ["password", "decrypt", sb.path("c.ktl"), "-o", sb.path("out.bin"), "--env-pass"]
+                    e1 = e2 = {"KESTREL_PASSWORD": "rss-pw"}
+                rc1, rss1 = run(enc, e1)
+                rc2, rss2 = run(dec, e2)
+                ok = rc1 == 0 and rc2 == 0 and sha(sb.path("out.bin")) == digest
+                if label == "small":
+                    base = {"enc": rss1, "dec": rss2}
+                else:
+                    evs.append({"ev": "rss", "id": "rss-%s-enc" % mode, "mode": mode, "dir": "encrypt", "size_mib": mib, "exit": rc1, "rss_kb": rss1,
+                                "base_rss_kb": base["enc"], "roundtrip_ok": ok})
+                    evs.append({"ev": "rss", "id": "rss-%s-dec" % mode, "mode": mode, "dir": "decrypt", "size_mib": mib, "exit": rc2, "rss_kb": rss2,
+                                "base_rss_kb": base["dec"], "roundtrip_ok": ok})
+                for f in ("in.bin", "c.ktl", "out.bin"):
+                    try:
+                        os.unlink(sb.path(f))
+                    except FileNotFoundError:
+                        pass
+    validate_events(rep, pid, "rss", evs, ["C11_", "C12_", "C01_"])
+    rep.extra["process_level_rss"] = [{k: e[k] for k in ("id", "size_mib", "rss_kb", "base_rss_kb")} for e in evs]
+    for e in evs:
+        rep.case(e["id"], True)
